@@ -1,5 +1,230 @@
 import RV.Json
+import RV.Drv.Arith
+import RV.Model.CtlPDeploy
+import RV.Oracle.CtlPDeploy
 namespace RV.Drv.CtlPDeploy
-open Lean RV
-def handle : Handler := fun op _ _ => .error s!"CtlPDeploy: op {op} not implemented"
+open Lean RV RV.Arith RV.Webhook RV.CtlPDeploy RV.Drv.Arith RV.Oracle.CtlPDeploy
+
+def ruOfJson (j : Json) : R RU := do
+  return { maxUnavailable := ← iosOptOfJson j "mu", maxSurge := ← iosOptOfJson j "ms" }
+
+def ruOptOfJson (j : Json) (k : String) : R (Option RU) :=
+  match jopt j k with
+  | none => pure none
+  | some v => do return some (← ruOfJson v)
+
+def ruToJson (r : RU) : Json :=
+  mkObj [("mu", optJ iosToJson r.maxUnavailable), ("ms", optJ iosToJson r.maxSurge)]
+
+def annoOfJson (j : Json) : R StratAnno := do
+  match ← fStr j "kind" with
+  | "absent" => return .absent
+  | "invalid" => return .invalid
+  | "valid" =>
+    let s ← jget j "s"
+    return .valid { rollingStyle := ← fStr s "rollingStyle", ru := ← ruOptOfJson s "ru",
+                    paused := ← fBool s "paused", partition := ← iosOfJson (← jget s "partition") }
+  | k => .error s!"ctlpdeploy: anno kind {k}"
+
+def annoToJson : StratAnno → Json
+  | .absent => mkObj [("kind", strJ "absent"), ("s", .null)]
+  | .invalid => mkObj [("kind", strJ "invalid"), ("s", .null)]
+  | .valid s => mkObj [("kind", strJ "valid"),
+      ("s", mkObj [("rollingStyle", strJ s.rollingStyle), ("ru", optJ ruToJson s.ru),
+                   ("paused", boolJ s.paused), ("partition", iosToJson s.partition)])]
+
+def ownerOf : String → R Owner
+  | "none" => pure .none | "this" => pure .this | "other" => pure .other
+  | s => .error s!"ctlpdeploy: control {s}"
+def ownerStr : Owner → String
+  | .none => "none" | .this => "this" | .other => "other"
+
+def depOfJson (j : Json) : R Dep := do
+  return { replicas := ← fOptInt j "replicas", paused := ← fBool j "paused", stratType := ← fStr j "stratType",
+           stratRU := ← ruOptOfJson j "stratRU", stratAnno := ← annoOfJson (← jget j "anno"),
+           control := ← ownerOf (← fStr j "control"), ctrlLabel := ← fBool j "ctrlLabel",
+           stableRev := ← fStr j "stableRev", extraStatus := ← fBool j "extraStatus",
+           inProgress := ← fBool j "inProgress", tmpl := ← fNat j "tmpl", rest := ← fNat j "rest" }
+
+def depToJson (d : Dep) : Json :=
+  mkObj [("replicas", optJ intJ d.replicas), ("paused", boolJ d.paused), ("stratType", strJ d.stratType),
+    ("stratRU", optJ ruToJson d.stratRU), ("anno", annoToJson d.stratAnno), ("control", strJ (ownerStr d.control)),
+    ("ctrlLabel", boolJ d.ctrlLabel), ("stableRev", strJ d.stableRev), ("extraStatus", boolJ d.extraStatus),
+    ("inProgress", boolJ d.inProgress), ("tmpl", natJ d.tmpl), ("rest", natJ d.rest)]
+
+def depOptOfJson (j : Json) (k : String) : R (Option Dep) :=
+  match jopt j k with
+  | none => pure none
+  | some v => do return some (← depOfJson v)
+
+def editOfJson (j : Json) (k : String) : R Edit :=
+  match jopt j k with
+  | none => pure Edit.none
+  | some e => do
+    let strat ← (do
+      if ← fBool e "setStrat" then
+        return some (← fStr e "stratType", ← ruOptOfJson e "ru")
+      else return none)
+    let paused := match jopt e "paused" with
+      | some (.bool b) => some b
+      | _ => none
+    return { tmpl := ← fOptNat e "tmpl", strat := strat, paused := paused, replicas := ← fOptInt e "replicas" }
+
+def callOf : String → R Call
+  | "initialize" => pure .initialize | "upgradeBatch" => pure .upgradeBatch
+  | "finalize" => pure .finalize | "submit" => pure .submit
+  | s => .error s!"ctlpdeploy: call {s}"
+def callStr : Call → String
+  | .initialize => "initialize" | .upgradeBatch => "upgradeBatch" | .finalize => "finalize" | .submit => "submit"
+
+def faultOf : String → R Fault
+  | "none" => pure .none | "get" => pure .get | "write" => pure .write
+  | s => .error s!"ctlpdeploy: fault {s}"
+
+def stepOfJson (j : Json) : R Step := do
+  return { call := ← callOf (← fStr j "call"), fault := ← faultOf (← fStr j "fault"), batch := ← fInt j "batch",
+           bpNil := ← fBool j "bpNil", edit := ← editOfJson j "edit" }
+
+def obsToJson (o : InitObs) : Json :=
+  mkObj [("observedReplicas", intJ o.observedReplicas), ("stableRevision", strJ o.stableRevision),
+         ("noNeedUpdate", optJ intJ o.noNeedUpdate)]
+
+def outToJson : Out StepOut → Json
+  | .panic => mkObj [("panic", strJ "?")]
+  | .val o => mkObj [("res", strJ (if o.res = .ok then "ok" else "err")), ("dep", optJ depToJson o.dep),
+                     ("writes", natJ o.writes), ("obs", optJ obsToJson o.obs)]
+
+/-- the implementation's step outcome, parsed back -/
+def outOfJson (j : Json) : R (Out StepOut) :=
+  match jopt j "panic" with
+  | some _ => pure .panic
+  | none => do
+    let res ← (do match ← fStr j "res" with
+      | "ok" => pure Res.ok
+      | _ => pure Res.err)
+    let obs ← (match jopt j "obs" with
+      | none => pure none
+      | some o => do
+        pure (some { observedReplicas := ← fInt o "observedReplicas", stableRevision := ← fStr o "stableRevision",
+                     noNeedUpdate := ← fOptInt o "noNeedUpdate" : InitObs }))
+    return .val { res := res, dep := ← depOptOfJson j "dep", writes := ← fNat j "writes", obs := obs }
+
+def andAll (l : List (String × Bool)) : List (String × Bool) :=
+  -- one verdict per key: the conjunction over the walk
+  l.foldl (fun acc (k, v) =>
+    match acc.find? (·.1 == k) with
+    | some _ => acc.map fun (k', v') => if k' == k then (k', v' && v) else (k', v')
+    | none => acc ++ [(k, v)]) []
+
+/-- per-step oracles along the implementation's snapshots; returns the verdicts and whether the
+    implementation ever panicked on an input the model does not panic on -/
+def walkOracles (rel : Rel) : Option Dep → List Step → List (Out StepOut) → List (String × Bool)
+  | d, s :: ss, .val o :: os => stepOracles rel s d o ++ walkOracles rel o.dep ss os
+  | _, _, _ => []
+
+def pairOracles : List Step → List (Out StepOut) → List (String × Bool)
+  | a :: b :: ss, .val oa :: .val ob :: os =>
+    ("C06.pdeploy_idempotent", idempotent a b oa ob) :: pairOracles (b :: ss) (.val ob :: os)
+  | _, _ => []
+
+/-- the Deployment before the last step and the last outcome of the implementation's walk -/
+def lastOf : Option Dep → List Step → List (Out StepOut) → Option (List Step × Step × Option Dep × StepOut)
+  | d, [s], [.val o] => some ([], s, d, o)
+  | _, s :: ss, .val o :: os =>
+    match lastOf o.dep ss os with
+    | some (pre, l, dl, ol) => some (s :: pre, l, dl, ol)
+    | none => none
+  | _, _, _ => none
+
+/-- the limit after every snapshot stays within what the walk's upgraded batches allow -/
+def walkBound (rel : Rel) (r : Int) (lim0 : Int) : List Step → List Step → List (Out StepOut) → Bool
+  | _, [], _ => true
+  | done, s :: ss, .val o :: os =>
+    let done' := done ++ [s]
+    (match o.dep with
+     | some d' => decide (limitOf d' ≤ max lim0 (allowedMax rel r done'))
+     | none => true) && walkBound rel r lim0 done' ss os
+  | _, _, _ => true
+
+/-- which branch each step of the implementation's walk took (distribution statistics) -/
+def stepTags : Option Dep → List Step → List (Out StepOut) → List String
+  | d, s :: ss, .val o :: os =>
+    let t := match s.call, d with
+      | .initialize, some _ =>
+        if o.res = .err then "init:err" else if o.writes = 1 then "init:claimed" else "init:already"
+      | .upgradeBatch, some d0 =>
+        if o.res = .err then "upgrade:err" else if o.writes = 1 then "upgrade:wrote"
+        else if d0.replicas = some 0 then "upgrade:size0"
+        else if !isUnderRolloutControl d0 then "upgrade:notcontrolled" else "upgrade:satisfied"
+      | .finalize, some _ =>
+        if o.res = .err then "finalize:err" else if o.writes = 0 then "finalize:noop"
+        else if s.bpNil then "finalize:full" else "finalize:controlinfo-only"
+      | .submit, some d0 =>
+        match o.dep with
+        | some d' =>
+          if d0.inProgress then
+            (if isPartitionStyle (getStrategy (applyEdit d0 s.edit)) then "submit:partition" else "submit:inprogress-other")
+          else if d'.inProgress then "submit:enters-rollout" else "submit:plain"
+        | none => "submit:?"
+      | _, none => "nodep-step"
+    t :: stepTags o.dep ss os
+  | _, _, _ => []
+
+/-- some complete `Finalize` of the implementation's walk met an unclaimed, paused or parked Deployment -/
+def anyUnclaimedStep : Option Dep → List Step → List (Out StepOut) → Bool
+  | d, s :: ss, .val o :: os => guardUnclaimedStep s d || anyUnclaimedStep o.dep ss os
+  | _, _, _ => false
+
+def handle : Handler := fun op inp impl => do
+  match op with
+  | "walk" =>
+    let d0 ← depOptOfJson inp "dep"
+    let rel : Rel := { batches := ← (← fArrD inp "batches").mapM iosOfJson, rollbackAnno := ← fBool inp "rollbackAnno",
+                       updated := ← fInt inp "updated" }
+    let world : World := { matched := ← fBool inp "matched", rsTmpl := ← fOptNat inp "rsTmpl" }
+    let steps ← (← fArrD inp "steps").mapM stepOfJson
+    let c : Cfg := { rel := rel, world := world }
+    let outs ← (← jarr impl).mapM outOfJson
+    let model := run c d0 steps
+    -- tags
+    let calls := steps.map fun s => callStr s.call
+    let faults := steps.filter (fun s => s.fault != .none && s.call != .submit)
+    let panicked := outs.any fun o => match o with | .panic => true | _ => false
+    let wrote := outs.any fun o => match o with | .val o => o.writes > 0 | _ => false
+    let tags := [s!"len:{if steps.length ≥ 8 then "8+" else toString steps.length}"] ++
+      (calls.eraseDups.map fun c => s!"has:{c}") ++
+      (if faults.isEmpty then [] else ["faulted"]) ++
+      (if steps.any (fun s => s.fault == .get && s.call != .submit) then ["fault:get"] else []) ++
+      (if steps.any (fun s => s.fault == .write && s.call != .submit) then ["fault:write"] else []) ++
+      (if panicked then ["panic"] else []) ++
+      (if d0.isNone then ["nodep"] else []) ++
+      (if wrote then [] else ["nowrite"]) ++
+      (if steps.isEmpty then ["trivial"] else []) ++
+      (stepTags d0 steps outs).eraseDups ++
+      (if anyUnclaimedStep d0 steps outs then ["guard:unclaimedFinalizeStep"] else []) ++
+      (if (steps.zip steps.tail).any (fun (a, b) => sameCall a b) then ["repeat"] else [])
+    -- oracles on the implementation's snapshots
+    let stepH := walkOracles rel d0 steps outs
+    let pairH := pairOracles steps outs
+    -- C05 round trip
+    let (rtH, rtTags) := match d0, lastOf d0 steps outs with
+      | some d, some (pre, l, dl, ol) =>
+        if stepsOK pre ∧ endsWithFinalize l ol ∧ userClean d then
+          let g1 := guardUserRecreate d
+          let g2 := guardUnclaimed dl
+          ([("C05.pdeploy_round_trip", roundTripFull d pre l dl ol)],
+           ["roundtrip"] ++ (if g1 then ["guard:userRecreate"] else []) ++ (if g2 then ["guard:unclaimedFinalize"] else []) ++
+           (if !g1 && !g2 then ["roundtrip:claimed"] else []))
+        else ([], [])
+      | _, _ => ([], [])
+    -- C01 walk bound (fixed size)
+    let wbH := match d0 with
+      | some d =>
+        match d.replicas with
+        | some r => if noScale steps then [("C01.pdeploy_walk_bound", walkBound rel r (limitOf d) [] steps outs)] else []
+        | none => []
+      | none => []
+    return { model := arrJ (model.map outToJson), holds := andAll (stepH ++ pairH ++ rtH ++ wbH), tags := tags ++ rtTags }
+  | _ => .error s!"ctlpdeploy: unknown op {op}"
+
 end RV.Drv.CtlPDeploy
